@@ -200,6 +200,10 @@ def run_suite(suite, seed, tier, count, extra_cases=None, timeout=None, profile=
     shutil.rmtree(cdir, ignore_errors=True)
     os.makedirs(cdir)
     hb = harness_bin(profile)
+    binenv = {}
+    if suite == "bin":
+        tftpd, tftpc = build_repo_bins()
+        binenv = {"VERIF_TFTPD": tftpd, "VERIF_TFTPC": tftpc}
     allcases = os.path.join(cdir, "cases.txt")
     corpus = []
     cpdir = os.path.join(ROOT, "corpus", suite)
@@ -219,7 +223,7 @@ def run_suite(suite, seed, tier, count, extra_cases=None, timeout=None, profile=
     for p, _ in shards:
         base = p[: -len(".cases")]
         cmds.append(([hb, "run", p, base + ".impl", base + ".scratch"],
-                     {"VERIF_STDOUT": base + ".out", "VERIF_STDERR": base + ".err"}, base + ".out", base + ".err"))
+                     dict({"VERIF_STDOUT": base + ".out", "VERIF_STDERR": base + ".err"}, **binenv), base + ".out", base + ".err"))
     rcs = run_parallel(cmds, timeout)
     if any(rc != 0 for rc in rcs):
         # a harness process that dies (abort, stack overflow, kill) is an observation about the implementation,
